@@ -1,7 +1,6 @@
 SPECIFICATION Spec
 CONSTANTS
-  Kinds = {"plain_clean", "plain_ctx", "plain_nowait", "plain_kill", "plain_broken", "plain_timeout", "plain_cancel", "reuse_same", "reuse_resize", "reuse_broken", "reuse_kill", "nested"}
   MaxLen = 2
+  CloseReaderOnKill = TRUE
 INVARIANT ReleasedMeansNothingOwned
-INVARIANT Emit
 CHECK_DEADLOCK FALSE
